@@ -1,3 +1,108 @@
-import Mqtt5V.Basic
+import Mqtt5V.Proofs.Sender
+/-! # C07 — Receive Maximum is never exceeded (sender core)
+
+Model of `async_sender` (queue, in-flight batch, limit/quota, resend, throttled_op_done).  For every
+history of sends (requests as the client builds them), write completions with any result, replies,
+reconnects that store any Receive Maximum, read-path resends and `cancel()` — of any length:
+on a throttling connection `quota + (throttled requests handed to the stream since the last resend whose
+reply is outstanding) ≤ limit`, the uint16 quota never wraps, and after every step that can start a write no
+sendable request is left waiting while the stream is free. -/
 namespace Mqtt5V.Props.C07
+open Mqtt5V.Model.Sender Mqtt5V.Proofs.Sender
+
+/-- inputs as the client produces them -/
+def InOK : In → Prop
+  | .send r => ReqWF r
+  | .setRm (some n) => n ≤ 65535
+  | _ => True
+
+def runS (s : S) : List In → S
+  | [] => s
+  | i :: is => runS (step s i).1 is
+
+/-- the accounting invariant holds in every reachable state -/
+theorem quota_accounting_invariant (is : List In) (hok : ∀ i ∈ is, InOK i) : Proofs.Sender.Inv (runS {} is) := by
+  suffices h : ∀ s, Proofs.Sender.Inv s → Proofs.Sender.Inv (runS s is) from h _ inv_init
+  induction is with
+  | nil => intro s h; exact h
+  | cons i is ih =>
+    intro s h
+    simp only [runS]
+    apply ih (fun j hj => hok j (by simp [hj]))
+    apply step_inv s i h
+    have := hok i (by simp)
+    cases i with
+    | send r => exact this
+    | setRm rm => cases rm <;> simpa [InOK] using this
+    | _ => trivial
+
+/-- **Receive Maximum respected**: on a connection whose CONNACK announced a Receive Maximum (limit ≠ 65535), the
+throttled requests (QoS>0 PUBLISH, re-sent PUBREL) that are being written or were written on this connection and
+are not yet answered never outnumber it. -/
+theorem receive_maximum_respected (is : List In) (hok : ∀ i ∈ is, InOK i) :
+    (runS {} is).limit ≠ MAX_LIMIT →
+      nThr ((runS {} is).inflight.getD []) + nThr (runS {} is).unanswered ≤ (runS {} is).limit := by
+  intro hl
+  have := (quota_accounting_invariant is hok).1 hl
+  omega
+
+/-- the limit in force is the Receive Maximum stored at the last resend (absent ⇒ 65535 = no throttling): see `resend` -/
+theorem limit_is_receive_maximum_at_resend (s : S) (h : s.inflight = none) :
+    (resend s).1.limit = s.rm.getD MAX_LIMIT := by
+  unfold resend
+  simp only [h, Option.isSome_none, Bool.false_eq_true, if_false]
+  exact (doWrite_other _).2.1
+
+/-- **Throttled messages are sent as soon as quota is available**: whenever `do_write` returns with the stream free,
+nothing sendable is left in the queue — what remains is throttled, non-terminal, and the quota is exhausted. -/
+theorem throttled_sent_when_quota (s : S) (h : (doWrite s).1.inflight = none) :
+    (doWrite s).1.queue = [] ∨
+    ((doWrite s).1.limit ≠ MAX_LIMIT ∧ (doWrite s).1.quota = 0 ∧ ∀ r ∈ (doWrite s).1.queue, r.throttled = true ∧ r.terminal = false) := by
+  by_cases hc : (s.inflight.isSome || s.queue.isEmpty) = true
+  · have hd : doWrite s = (s, []) := by unfold doWrite; simp [hc]
+    rw [hd] at h ⊢
+    simp only [Bool.or_eq_true] at hc
+    rcases hc with h1 | h1
+    · simp only at h; rw [h] at h1; simp at h1
+    · left; simpa using h1
+  · cases hf : s.queue.find? (·.terminal) with
+    | some t =>
+      have hd : doWrite s = ({ s with queue := s.queue.erase t, inflight := some [t] }, [.wr [t.id]]) := by
+        unfold doWrite; simp only [hc, hf]; rfl
+      rw [hd] at h; simp at h
+    | none =>
+      by_cases hlim : s.limit = MAX_LIMIT
+      · have hd : doWrite s = ({ s with queue := [], inflight := some s.queue }, [.wr (s.queue.map (·.id))]) := by
+          unfold doWrite; simp only [hc, hf, hlim]; rfl
+        rw [hd] at h; simp at h
+      · by_cases hbe : (split s.queue s.quota).1.isEmpty = true
+        · have hd : doWrite s = (s, []) := by unfold doWrite; simp only [hc, hf, hlim, hbe]; rfl
+          rw [hd]
+          right
+          have hbn : (split s.queue s.quota).1 = [] := by simpa using hbe
+          have hq0 := split_quota s.queue s.quota
+          have hrest := split_rest s.queue s.quota
+          have hperm := split_perm s.queue s.quota
+          rw [hbn] at hperm hq0
+          simp only [List.nil_append, nThr_nil, Nat.add_zero] at hperm hq0
+          have hne : s.queue ≠ [] := by intro he; simp [he] at hc
+          have hrne : (split s.queue s.quota).2.1 ≠ [] := by
+            intro he; rw [he] at hperm; exact hne (List.Perm.eq_nil hperm.symm)
+          refine ⟨hlim, by rw [← hq0]; exact hrest.2 hrne, ?_⟩
+          intro r hr
+          have hr' : r ∈ (split s.queue s.quota).2.1 := hperm.symm.subset hr
+          refine ⟨hrest.1 r hr', ?_⟩
+          have := List.find?_eq_none.mp hf r hr
+          simpa using this
+        · have hd : (doWrite s).1.inflight = some (split s.queue s.quota).1 := by
+            unfold doWrite; simp only [hc, hf, hlim, hbe]; rfl
+          rw [hd] at h; cases h
+
+/-- non-vacuity: the inputs of a history with throttling, a reconnect, a reply and a read-path resend are admissible -/
+example : ∀ i ∈ [In.setRm (some 1), .send ⟨1, true, false, false, 1, true⟩, .send ⟨2, true, false, false, 2, true⟩,
+    .send ⟨3, false, false, true, 0, false⟩, .wdone .tryAgain, .wdone .ok, .ack 1, .resendRead], InOK i := by
+  intro i hi
+  simp at hi
+  rcases hi with rfl | rfl | rfl | rfl | rfl | rfl | rfl | rfl <;> simp [InOK, ReqWF]
+
 end Mqtt5V.Props.C07
